@@ -109,19 +109,26 @@ def sliced1 (t : ItemType) : Bool := t == .tDollarIdent || t == .tDotIdent || t 
 def sliced2 (t : ItemType) : Bool := t == .tQuestionDotIdent || t == .tQuestionDotIndex
 
 def itemOK (it : Item) : Bool :=
-  (!sliced1 it.typ || decide (1 ≤ it.val.length)) && (!sliced2 it.typ || decide (2 ≤ it.val.length))
+  (!sliced1 it.typ || decide (1 ≤ it.val.length)) && (!sliced2 it.typ || decide (2 ≤ it.val.length)) &&
+    it.typ != .tEOF
 
-/-- number of items sent so far whose value is too short for the parser's slices -/
+/-- number of items sent so far whose value is too short for the parser's slices, or that are
+    EOF items (the EOF item is only ever the very last one) -/
 def Lexer.bad (l : Lexer) : Nat := (l.items.toList.filter (fun it => !itemOK it)).length
 
+/-- the same count over all items but the last -/
+def Lexer.badInit (l : Lexer) : Nat := (l.items.toList.dropLast.filter (fun it => !itemOK it)).length
+
 /-- emitting a token of type `t` with `n` bytes is fine -/
-def emitOK (t : ItemType) (n : Int) : Prop := (sliced1 t = true → 1 ≤ n) ∧ (sliced2 t = true → 2 ≤ n)
+def emitOK (t : ItemType) (n : Int) : Prop :=
+  (sliced1 t = true → 1 ≤ n) ∧ (sliced2 t = true → 2 ≤ n) ∧ t ≠ .tEOF
 
 theorem emitOK_mono {t : ItemType} {a b : Int} (h : emitOK t a) (hab : a ≤ b) : emitOK t b :=
-  ⟨fun h1 => by have := h.1 h1; omega, fun h2 => by have := h.2 h2; omega⟩
+  ⟨fun h1 => by have := h.1 h1; omega, fun h2 => by have := h.2.1 h2; omega, h.2.2⟩
 
-theorem emitOK_safe {t : ItemType} {n : Int} (h1 : sliced1 t = false) (h2 : sliced2 t = false) : emitOK t n :=
-  ⟨fun h => by rw [h1] at h; exact absurd h (by simp), fun h => by rw [h2] at h; exact absurd h (by simp)⟩
+theorem emitOK_safe {t : ItemType} {n : Int} (h1 : sliced1 t = false) (h2 : sliced2 t = false)
+    (h3 : t ≠ .tEOF := by decide) : emitOK t n :=
+  ⟨fun h => by rw [h1] at h; exact absurd h (by simp), fun h => by rw [h2] at h; exact absurd h (by simp), h3⟩
 
 @[simp] theorem backup_pos (l : Lexer) : l.backup.pos = l.pos - l.width := rfl
 @[simp] theorem backup_start (l : Lexer) : l.backup.start = l.start := rfl
@@ -163,6 +170,14 @@ theorem bad_push (l : Lexer) (it : Item) (li : Item) (st : Int) (h : itemOK it =
 theorem bad_push' (l : Lexer) (it : Item) (h : itemOK it = true) :
     Lexer.bad { l with items := l.items.push it } = l.bad := by
   simp [Lexer.bad, List.filter_append, h]
+
+theorem badInit_push' (l : Lexer) (it : Item) :
+    Lexer.badInit { l with items := l.items.push it } = l.bad := by
+  simp [Lexer.badInit, Lexer.bad]
+
+theorem badInit_push (l : Lexer) (it : Item) (li : Item) (st : Int) :
+    Lexer.badInit { l with lastEmit := li, items := l.items.push it, start := st } = l.bad := by
+  simp [Lexer.badInit, Lexer.bad]
 
 /-- the effect of one `next` on the position: nothing at eof, one rune forward otherwise -/
 def NextFacts (l : Lexer) (r : Int) (l' : Lexer) : Prop :=
@@ -232,13 +247,27 @@ theorem emit_sat {l : Lexer} {t : ItemType} {Q : Lexer → Prop}
   · apply bad_push
     simp only [itemOK, Array.length_toList, Array.size_extract, Bool.and_eq_true, Bool.or_eq_true,
       Bool.not_eq_true', decide_eq_true_eq]
-    constructor
+    refine ⟨⟨?_, ?_⟩, by simpa using hok.2.2⟩
     · by_cases hs1 : sliced1 t = true
       · right; have := hok.1 hs1; omega
       · left; simpa using hs1
     · by_cases hs2 : sliced2 t = true
-      · right; have := hok.2 hs2; omega
+      · right; have := hok.2.1 hs2; omega
       · left; simpa using hs2
+
+/-- `l.emit(itemEOF)`: the one emit after which the scan ends -/
+theorem emit_eof_ex {l : Lexer} (h0 : 0 ≤ l.start) (h1 : l.start ≤ l.pos) (h2 : l.pos ≤ l.len) :
+    ∃ l', l.emit .tEOF = some l' ∧ (l.mp ≤ l'.mp ∧ ((l'.mp : Int) = l.mp ∨ (l'.mp : Int) = l.pos)) ∧
+      l'.badInit = l.bad ∧ (∃ it, l'.items.back? = some it ∧ it.typ = .tEOF) := by
+  unfold Lexer.emit
+  simp only [if_neg (show ¬ l.pos > l.len by omega)]
+  unfold sliceOf
+  simp only [Lexer.len] at h2
+  rw [if_pos ⟨h0, h1, h2⟩]
+  refine ⟨_, rfl, ⟨?_, ?_⟩, badInit_push _ _ _ _,
+    ⟨{ typ := .tEOF, pos := l.pos.toNat, val := (l.input.extract l.start.toNat l.pos.toNat).toList }, by simp, rfl⟩⟩
+  · simp only [mp_push]; omega
+  · simp only [mp_push]; omega
 
 /-- the facts `scanWhile` establishes about the lexer it returns -/
 def ScanFacts (l : Lexer) (r : Int) (l' : Lexer) : Prop :=
@@ -448,21 +477,21 @@ def EndsOK (l : Lexer) : Prop := ∃ it, l.items.back? = some it ∧ (it.typ = .
     state), the last item it sent is EOF or Error -/
 def Post (n : Int) (s : St) (l : Lexer) (res : Option St × Lexer) : Prop :=
   (∀ s', res.1 = some s' → Good n res.2 ∧ phi n s' res.2 < phi n s l) ∧
-  (res.1 = none → EndsOK res.2 ∧ (res.2.mp : Int) ≤ n ∧ res.2.bad = 0)
+  (res.1 = none → EndsOK res.2 ∧ (res.2.mp : Int) ≤ n ∧ res.2.badInit = 0)
 
 theorem errorf_sat {n : Int} {s : St} {l0 l : Lexer} (h : l.pos ≤ n ∧ (l.mp : Int) ≤ n ∧ l.bad = 0) :
     Sat (errorf l) (Post n s l0) := by
   refine ⟨_, rfl, fun _ h => absurd h (by simp), fun _ => ⟨⟨{ typ := .tError, pos := l.pos.toNat, val := [] }, by simp, Or.inr rfl⟩, ?_, ?_⟩⟩
   · simp only [mp_push']
     omega
-  · rw [bad_push' _ _ (by simp [itemOK, sliced1, sliced2])]; exact h.2.2
+  · rw [badInit_push']; exact h.2.2
 
-theorem errorfAt_sat {n : Int} {s : St} {l0 l : Lexer} {pos : Int} (h : pos ≤ n ∧ (l.mp : Int) ≤ n ∧ l.bad = 0) :
-    Sat (errorfAt l pos) (Post n s l0) := by
-  refine ⟨_, rfl, fun _ h => absurd h (by simp), fun _ => ⟨⟨{ typ := .tError, pos := pos.toNat, val := [] }, by simp, Or.inr rfl⟩, ?_, ?_⟩⟩
+theorem errorfAt_sat {n : Int} {s : St} {l0 l : Lexer} {pos : Int} {cls : UInt8} (h : pos ≤ n ∧ (l.mp : Int) ≤ n ∧ l.bad = 0) :
+    Sat (errorfAt l pos cls) (Post n s l0) := by
+  refine ⟨_, rfl, fun _ h => absurd h (by simp), fun _ => ⟨⟨{ typ := .tError, pos := pos.toNat, val := [cls] }, by simp, Or.inr rfl⟩, ?_, ?_⟩⟩
   · simp only [mp_push']
     omega
-  · rw [bad_push' _ _ (by simp [itemOK, sliced1, sliced2])]; exact h.2.2
+  · rw [badInit_push']; exact h.2.2
 
 theorem emit_items {l l' : Lexer} {t : ItemType} (h : l.emit t = some l') :
     ∃ it, l'.items.back? = some it ∧ it.typ = t := by
@@ -504,7 +533,7 @@ theorem Post.of {n : Int} {s s' : St} {l l' : Lexer}
   · exact phi_lt_of_same h (ha h) (hb h)
   · exact phi_lt_of_adv (by simp only at h ⊢; omega) h2
 
-theorem Post.nil {n : Int} {s : St} {l l' : Lexer} (h : EndsOK l') (hm : (l'.mp : Int) ≤ n ∧ l'.bad = 0) :
+theorem Post.nil {n : Int} {s : St} {l l' : Lexer} (h : EndsOK l') (hm : (l'.mp : Int) ≤ n ∧ l'.badInit = 0) :
     Post n s l (none, l') :=
   ⟨fun _ h => absurd h (by simp), fun _ => ⟨h, hm.1, hm.2⟩⟩
 
@@ -521,12 +550,12 @@ theorem lookup_snd_mem {α : Type} [BEq α] (k : α) : ∀ (l : List (α × Item
     · simp only [Option.some.injEq] at h; subst h; simp
     · have := ih v h; simp only [List.map_cons, List.mem_cons]; exact Or.inr this
 
-theorem symbols_vals_safe : ∀ t ∈ Gen.symbols.map (·.2), sliced1 t = false ∧ sliced2 t = false := by decide
-theorem builtins_vals_safe : ∀ t ∈ Gen.builtinIdents.map (·.2), sliced1 t = false ∧ sliced2 t = false := by decide
+theorem symbols_vals_safe : ∀ t ∈ Gen.symbols.map (·.2), sliced1 t = false ∧ sliced2 t = false ∧ t ≠ .tEOF := by decide
+theorem builtins_vals_safe : ∀ t ∈ Gen.builtinIdents.map (·.2), sliced1 t = false ∧ sliced2 t = false ∧ t ≠ .tEOF := by decide
 
 theorem symbols_lookup_ok {k : Bytes} {t : ItemType} {n : Int} (h : Gen.symbols.lookup k = some t) : emitOK t n := by
   have := symbols_vals_safe t (lookup_snd_mem k _ t h)
-  exact emitOK_safe this.1 this.2
+  exact emitOK_safe this.1 this.2.1 this.2.2
 
 theorem symbols_getD_ok (k : Bytes) (n : Int) : emitOK ((Gen.symbols.lookup k).getD .tInvalid) n := by
   cases h : Gen.symbols.lookup k with
@@ -535,7 +564,7 @@ theorem symbols_getD_ok (k : Bytes) (n : Int) : emitOK ((Gen.symbols.lookup k).g
 
 theorem builtins_lookup_ok {k : Bytes} {t : ItemType} {n : Int} (h : Gen.builtinIdents.lookup k = some t) : emitOK t n := by
   have := builtins_vals_safe t (lookup_snd_mem k _ t h)
-  exact emitOK_safe this.1 this.2
+  exact emitOK_safe this.1 this.2.1 this.2.2
 
 /-- the emitted token type is not one the parser slices, or long enough -/
 macro "eok" : tactic => `(tactic|
